@@ -638,4 +638,267 @@ theorem GetsR_partial {vars : List Nat} {ops : List Op} {tl : Term} {es : List T
   GetsR_skel (ps := tl :: es) (.getPartial es.length) (buildCtor .partial_) builder_partial
     (fun n pc k a rest astack env cp m => exec_getPartial n pc vars k astack env cp m es.length a rest) h
 
+/-! ## run-time meaning of put-code -/
+
+/-- `ops` (put-instructions) append the terms `ps` to the argument registers — nothing else happens:
+    no unification, no fresh variable, one unit of fuel per instruction -/
+def PutsR (vars : List Nat) (ops : List Op) (ps : List Term) : Prop :=
+  ∀ (fuel : Nat) (rest : List Op) (k : Cont) (args : List Term) (astack : List Frame)
+    (env : Env) (cp : Nat) (m : MS),
+    exec (fuel + ops.length) (ops ++ rest) vars k args astack env cp m =
+      exec fuel rest vars k (args ++ ps) astack env cp m
+
+theorem PutsR_nil (vars : List Nat) : PutsR vars [] [] := by
+  intro fuel rest k args astack env cp m
+  simp
+
+theorem PutsR_append {vars : List Nat} {ops1 ops2 : List Op} {ps1 ps2 : List Term}
+    (h1 : PutsR vars ops1 ps1) (h2 : PutsR vars ops2 ps2) : PutsR vars (ops1 ++ ops2) (ps1 ++ ps2) := by
+  intro fuel rest k args astack env cp m
+  have e : fuel + (ops1 ++ ops2).length = (fuel + ops2.length) + ops1.length := by
+    simp only [List.length_append]; omega
+  rw [e, List.append_assoc, h1, h2, List.append_assoc]
+
+theorem PutsR_const (vars : List Nat) (c : Term) : PutsR vars [.putConst c] [c] := by
+  intro fuel rest k args astack env cp m
+  exact exec_putConst fuel rest vars k args astack env cp m c
+
+theorem PutsR_var (vars : List Nat) (i v : Nat) (hv : vars[i]? = some v) :
+    PutsR vars [.putVar i] [.var v] := by
+  intro fuel rest k args astack env cp m
+  exact exec_putVar fuel rest vars k args astack env cp m i v hv
+
+theorem PutsR_ctor {vars : List Nat} {ops : List Op} {ps : List Term} (op : Op) (c : Ctor)
+    (hstep : ∀ n pc k args astack env cp (m : MS),
+      exec (n + 1) (op :: pc) vars k args astack env cp m =
+        exec n pc vars k [] (.put args c :: astack) env cp m)
+    (h : PutsR vars ops ps) : PutsR vars (op :: ops ++ [.pop]) [buildCtor c ps] := by
+  intro fuel rest k args astack env cp m
+  have e1 : fuel + (op :: ops ++ [Op.pop]).length = ((fuel + 1) + ops.length) + 1 := by
+    simp only [List.length_cons, List.length_append, List.length_nil]; omega
+  have e2 : (op :: ops ++ [Op.pop]) ++ rest = op :: (ops ++ (Op.pop :: rest)) := by simp
+  rw [e1, e2, hstep, h, exec_pop_put, List.nil_append]
+
+theorem PutsR_functor {vars : List Nat} {ops : List Op} {ps : List Term} (g : String) (n : Nat)
+    (h : PutsR vars ops ps) :
+    PutsR vars (.putFunctor g n :: ops ++ [.pop]) [.app g (Args.ofList ps)] :=
+  PutsR_ctor (.putFunctor g n) (.functor g)
+    (fun n' pc k args astack env cp m => exec_putFunctor n' pc vars k args astack env cp m g n) h
+
+theorem PutsR_list {vars : List Nat} {ops : List Op} {ps : List Term} (n : Nat)
+    (h : PutsR vars ops ps) : PutsR vars (.putList n :: ops ++ [.pop]) [Term.list ps] :=
+  PutsR_ctor (.putList n) .list
+    (fun n' pc k args astack env cp m => exec_putList n' pc vars k args astack env cp m n) h
+
+theorem PutsR_partial {vars : List Nat} {ops : List Op} {tl : Term} {es : List Term} (n : Nat)
+    (h : PutsR vars ops (tl :: es)) : PutsR vars (.putPartial n :: ops ++ [.pop]) [Term.list es tl] :=
+  PutsR_ctor (ps := tl :: es) (.putPartial n) .partial_
+    (fun n' pc k args astack env cp m => exec_putPartial n' pc vars k args astack env cp m n) h
+
+/-! ## compile time: one induction over the encodings, generic in the meaning of the code -/
+
+/-- a term without variables -/
+def Closed (t : Term) : Prop := ∀ v, t.hasVar v = false
+
+theorem closed_list {ts : List Term} {tl : Term} (h : ∀ t ∈ ts, Closed t) (htl : Closed tl) :
+    Closed (Term.list ts tl) := by
+  induction ts with
+  | nil => exact htl
+  | cons t ts ih =>
+    intro v
+    have := ih (fun t' ht' => h t' (by simp [ht'])) v
+    simp only [Term.list] at this
+    simp [Term.list, Term.consT, Term.hasVar, Args.hasVar, h t (by simp) v, this]
+
+theorem closed_charConsts (s : List Char) : ∀ t ∈ charConsts s, Closed t := by
+  intro t ht
+  simp only [charConsts, List.mem_map] at ht
+  obtain ⟨c, _, rfl⟩ := ht
+  exact fun _ => rfl
+
+theorem closed_codeConsts (s : List Char) : ∀ t ∈ codeConsts s, Closed t := by
+  intro t ht
+  simp only [codeConsts, List.mem_map] at ht
+  obtain ⟨c, _, rfl⟩ := ht
+  exact fun _ => rfl
+
+theorem closed_charList (s : List Char) : Closed (Rep.abs (.charList s)) := by
+  have := closed_list (closed_charConsts s) (tl := Term.nilT) (fun _ => rfl)
+  simpa [Rep.abs, charConsts] using this
+
+theorem closed_codeList (s : List Char) : Closed (Rep.abs (.codeList s)) := by
+  have := closed_list (closed_codeConsts s) (tl := Term.nilT) (fun _ => rfl)
+  simpa [Rep.abs, codeConsts] using this
+
+theorem rename_closed {t : Term} (h : Closed t) (ρ : Nat → Nat) : t.rename ρ = t := by
+  have := subst_congr t (fun v => .var (ρ v)) (fun v => .var v) (fun v hv => by simp [h v] at hv)
+  rw [Term.rename, this, Term.subst_id]
+
+/-- what the generic induction needs to know about the meaning `R tbl ops ts` of argument code
+    (`tbl` = variable table at compile time, `ts` = the source terms) -/
+structure ArgSem (hd : Bool) (R : List Nat → List Op → List Term → Prop) : Prop where
+  nil : ∀ vs, R vs [] []
+  mono : ∀ {vs vs1 ops ts}, R vs ops ts → vs <+: vs1 → R vs1 ops ts
+  append : ∀ {vs ops1 ops2 ts1 ts2}, R vs ops1 ts1 → R vs ops2 ts2 → R vs (ops1 ++ ops2) (ts1 ++ ts2)
+  const : ∀ vs t, Closed t → R vs [opConst hd t] [t]
+  var : ∀ vs i v, vs[i]? = some v → R vs [opVar hd i] [.var v]
+  functor : ∀ vs g ops args, R vs ops args →
+    R vs (opFunctor hd g args.length :: ops ++ [.pop]) [.app g (Args.ofList args)]
+  list : ∀ vs ops es, R vs ops es → R vs (opList hd es.length :: ops ++ [.pop]) [Term.list es]
+  partial_ : ∀ vs ops tl es, R vs ops (tl :: es) →
+    R vs (opPartial hd es.length :: ops ++ [.pop]) [Term.list es tl]
+
+theorem ArgSem.consts {hd : Bool} {R : List Nat → List Op → List Term → Prop} (S : ArgSem hd R)
+    (vs : List Nat) : ∀ ts : List Term, (∀ t ∈ ts, Closed t) → R vs (ts.map (opConst hd)) ts
+  | [], _ => S.nil vs
+  | t :: ts, h => by
+    have := S.append (S.const vs t (h t (by simp))) (S.consts vs ts (fun t' ht' => h t' (by simp [ht'])))
+    simpa using this
+
+theorem indexOf_go_none (v : Nat) : ∀ (xs : List Nat) (k : Nat), indexOf?.go v xs k = none → v ∉ xs
+  | [], _, _ => by simp
+  | x :: xs, k, h => by
+    simp only [indexOf?.go] at h
+    split at h
+    · cases h
+    · rename_i hx
+      have := indexOf_go_none v xs (k + 1) h
+      simp [this, Ne.symm hx]
+
+theorem varOffset_nodup (c : CState) (v : Nat) (h : c.vars.Nodup) : (varOffset c v).2.vars.Nodup := by
+  unfold varOffset
+  cases hi : indexOf? c.vars v with
+  | some i => exact h
+  | none =>
+    have hn : v ∉ c.vars := indexOf_go_none v c.vars 0 hi
+    simp only
+    rw [List.nodup_append]
+    exact ⟨h, by simp, fun a ha b hb => by
+      simp only [List.mem_singleton] at hb
+      subst hb
+      exact fun e => hn (e ▸ ha)⟩
+
+mutual
+  theorem compileArg_sem {hd : Bool} {R : List Nat → List Op → List Term → Prop} (S : ArgSem hd R) :
+      ∀ (r : Rep) (c : CState), WF r = true →
+      ∃ ops, (compileArg hd r c).code = c.code ++ ops ∧ c.vars <+: (compileArg hd r c).vars ∧
+        (c.vars.Nodup → (compileArg hd r c).vars.Nodup) ∧
+        R (compileArg hd r c).vars ops [Rep.abs r]
+    | .var v, c, _ => by
+      obtain ⟨i, c', h, hc, hp, hv⟩ := varOffset_spec c v
+      have hn := varOffset_nodup c v
+      refine ⟨[opVar hd i], ?_, ?_, ?_, ?_⟩
+      · simp [compileArg, h, hc]
+      · simpa [compileArg, h] using hp
+      · simpa [compileArg, h] using hn
+      · simpa [compileArg, h, Rep.abs] using S.var c'.vars i v hv
+    | .atom s, c, _ =>
+      ⟨[opConst hd (.atom s)], by simp [compileArg], by simp [compileArg], by simp [compileArg],
+        by simpa [compileArg, Rep.abs] using S.const c.vars (.atom s) (fun _ => rfl)⟩
+    | .int i, c, _ =>
+      ⟨[opConst hd (.int i)], by simp [compileArg], by simp [compileArg], by simp [compileArg],
+        by simpa [compileArg, Rep.abs] using S.const c.vars (.int i) (fun _ => rfl)⟩
+    | .flt b, c, _ =>
+      ⟨[opConst hd (.flt b)], by simp [compileArg], by simp [compileArg], by simp [compileArg],
+        by simpa [compileArg, Rep.abs] using S.const c.vars (.flt b) (fun _ => rfl)⟩
+    | .str n, c, _ =>
+      ⟨[opConst hd (.str n)], by simp [compileArg], by simp [compileArg], by simp [compileArg],
+        by simpa [compileArg, Rep.abs] using S.const c.vars (.str n) (fun _ => rfl)⟩
+    | .charList s, c, _ =>
+      ⟨[opConst hd (Rep.abs (.charList s))], by simp [compileArg], by simp [compileArg],
+        by simp [compileArg],
+        by simpa [compileArg] using S.const c.vars (Rep.abs (.charList s)) (closed_charList s)⟩
+    | .codeList s, c, _ =>
+      ⟨[opConst hd (Rep.abs (.codeList s))], by simp [compileArg], by simp [compileArg],
+        by simp [compileArg],
+        by simpa [compileArg] using S.const c.vars (Rep.abs (.codeList s)) (closed_codeList s)⟩
+    | .compound f args, c, h => by
+      simp only [WF, Bool.and_eq_true] at h
+      obtain ⟨ops, hcode, hp, hn, hr⟩ := compileArgs_sem S args (emit c (opFunctor hd f args.length)) h.2
+      refine ⟨opFunctor hd f args.length :: ops ++ [.pop], ?_, ?_, ?_, ?_⟩
+      · simp [compileArg, hcode]
+      · simpa [compileArg] using hp
+      · simpa [compileArg] using hn
+      · have := S.functor _ f ops _ hr
+        simpa [compileArg, Rep.abs, absArgs_toList_length, absArgs_len] using this
+    | .list elems, c, h => by
+      simp only [WF, Bool.and_eq_true] at h
+      obtain ⟨ops, hcode, hp, hn, hr⟩ := compileArgs_sem S elems (emit c (opList hd elems.length)) h.2
+      refine ⟨opList hd elems.length :: ops ++ [.pop], ?_, ?_, ?_, ?_⟩
+      · simp [compileArg, hcode]
+      · simpa [compileArg] using hp
+      · simpa [compileArg] using hn
+      · have := S.list _ ops _ hr
+        simpa [compileArg, Rep.abs, absArgs_toList_length, absArgs_len, list_absArgs_nil] using this
+    | .part pre tail, c, h => by
+      cases pre with
+      | list elems =>
+        simp only [WF, Bool.and_eq_true] at h
+        obtain ⟨ops1, hcode1, hp1, hn1, hr1⟩ :=
+          compileArg_sem S tail (emit c (opPartial hd elems.length)) h.2
+        obtain ⟨ops2, hcode2, hp2, hn2, hr2⟩ :=
+          compileArgs_sem S elems (compileArg hd tail (emit c (opPartial hd elems.length))) h.1.2
+        refine ⟨opPartial hd elems.length :: (ops1 ++ ops2) ++ [.pop], ?_, ?_, ?_, ?_⟩
+        · simp [compileArg, hcode1, hcode2]
+        · simpa [compileArg] using List.IsPrefix.trans hp1 hp2
+        · intro hc
+          simpa [compileArg] using hn2 (hn1 (by simpa using hc))
+        · have := S.partial_ _ _ (Rep.abs tail) _ (S.append (S.mono hr1 hp2) hr2)
+          simpa [compileArg, Rep.abs, absArgs_toList_length, absArgs_len, list_absArgs] using this
+      | charList s =>
+        simp only [WF, Bool.and_eq_true] at h
+        obtain ⟨ops1, hcode1, hp1, hn1, hr1⟩ :=
+          compileArg_sem S tail (emit c (opPartial hd s.length)) h.2
+        obtain ⟨hf1, hf2⟩ := foldl_emit (opConst hd) (charConsts s)
+          (compileArg hd tail (emit c (opPartial hd s.length)))
+        refine ⟨opPartial hd s.length :: (ops1 ++ (charConsts s).map (opConst hd)) ++ [.pop], ?_, ?_, ?_, ?_⟩
+        · simp [compileArg, hcode1, hf1]
+        · simpa [compileArg, hf2] using hp1
+        · intro hc
+          simpa [compileArg, hf2] using hn1 (by simpa using hc)
+        · have := S.partial_ _ _ (Rep.abs tail) _
+            (S.append hr1 (S.consts _ (charConsts s) (closed_charConsts s)))
+          have e : Rep.abs (.part (.charList s) tail) = Term.list (charConsts s) (Rep.abs tail) := by
+            simp [Rep.abs, charConsts, graft_list]
+          have el : (charConsts s).length = s.length := by simp [charConsts]
+          rw [e]
+          simpa [compileArg, hf2, el] using this
+      | codeList s =>
+        simp only [WF, Bool.and_eq_true] at h
+        obtain ⟨ops1, hcode1, hp1, hn1, hr1⟩ :=
+          compileArg_sem S tail (emit c (opPartial hd s.length)) h.2
+        obtain ⟨hf1, hf2⟩ := foldl_emit (opConst hd) (codeConsts s)
+          (compileArg hd tail (emit c (opPartial hd s.length)))
+        refine ⟨opPartial hd s.length :: (ops1 ++ (codeConsts s).map (opConst hd)) ++ [.pop], ?_, ?_, ?_, ?_⟩
+        · simp [compileArg, hcode1, hf1]
+        · simpa [compileArg, hf2] using hp1
+        · intro hc
+          simpa [compileArg, hf2] using hn1 (by simpa using hc)
+        · have := S.partial_ _ _ (Rep.abs tail) _
+            (S.append hr1 (S.consts _ (codeConsts s) (closed_codeConsts s)))
+          have e : Rep.abs (.part (.codeList s) tail) = Term.list (codeConsts s) (Rep.abs tail) := by
+            simp [Rep.abs, codeConsts, graft_list]
+          have el : (codeConsts s).length = s.length := by simp [codeConsts]
+          rw [e]
+          simpa [compileArg, hf2, el] using this
+      | _ => simp [WF] at h
+  theorem compileArgs_sem {hd : Bool} {R : List Nat → List Op → List Term → Prop} (S : ArgSem hd R) :
+      ∀ (rs : RepList) (c : CState), WFs rs = true →
+      ∃ ops, (compileArgs hd rs c).code = c.code ++ ops ∧ c.vars <+: (compileArgs hd rs c).vars ∧
+        (c.vars.Nodup → (compileArgs hd rs c).vars.Nodup) ∧
+        R (compileArgs hd rs c).vars ops (Rep.absArgs rs).toList
+    | .nil, c, _ => ⟨[], by simp [compileArgs], by simp [compileArgs], by simp [compileArgs],
+        by simpa [compileArgs, Rep.absArgs, Args.toList] using S.nil c.vars⟩
+    | .cons r rs, c, h => by
+      simp only [WFs, Bool.and_eq_true] at h
+      obtain ⟨ops1, hcode1, hp1, hn1, hr1⟩ := compileArg_sem S r c h.1
+      obtain ⟨ops2, hcode2, hp2, hn2, hr2⟩ := compileArgs_sem S rs (compileArg hd r c) h.2
+      refine ⟨ops1 ++ ops2, ?_, ?_, fun hc => ?_, ?_⟩
+      · simp [compileArgs, hcode1, hcode2]
+      · simpa [compileArgs] using List.IsPrefix.trans hp1 hp2
+      · simpa [compileArgs] using hn2 (hn1 hc)
+      · have := S.append (S.mono hr1 hp2) hr2
+        simpa [compileArgs, Rep.absArgs, Args.toList] using this
+end
+
 end PrologVerif.Activation
